@@ -614,7 +614,7 @@ def cli_stage(ctx, files):
     os.makedirs(d, exist_ok=True)
     jobs = []
     for fi, f in enumerate(files):
-        if f["fmt"] == "lzma" or f.get("large"):
+        if f["fmt"] == "lzma" or f.get("large") or f.get("crafted"):
             continue
         n = len(f["data"])
         for _ in range(12):
